@@ -579,7 +579,7 @@ pub fn cases(tier: Tier) -> Vec<Case> {
         insts.iter().find(|c| c.name == "int_ne").unwrap().clone(),
     ];
     for c in &core {
-        for variant in 0..18 {
+        for variant in 0..23 {
             let mut f = model(vec![c.clone(), ConDecl { name: "int_le", args: vec![v("x"), v("x")] }], Goal::Satisfy, String::new());
             // make sure all base variables exist for the variants
             f.vars = base_vars();
@@ -688,6 +688,49 @@ pub fn cases(tier: Tier) -> Vec<Case> {
                     f.vars.push(VarDecl { name: "u".into(), dom: Dom::Set(vec![1, -1, 1, 0]), alias: None, fixed: None, output: true });
                     f.cons.push(ConDecl { name: "int_lin_le", args: vec![Arg::Arr(vec![Arg::I(1), Arg::I(-1)]), Arg::Arr(vec![v("x"), v("w")]), Arg::I(-3)] });
                     f.cons.push(ConDecl { name: "int_ne", args: vec![v("u"), v("z")] });
+                }
+                18 => {
+                    // an alias class of three built as a fan, with variables declared after it
+                    f.vars.push(VarDecl { name: "w".into(), dom: Dom::Range(0, 2), alias: Some("x".into()), fixed: None, output: true });
+                    f.vars.push(VarDecl { name: "u".into(), dom: Dom::Range(0, 2), alias: Some("x".into()), fixed: None, output: true });
+                    f.vars.push(VarDecl { name: "g".into(), dom: Dom::Range(0, 1), alias: None, fixed: None, output: true });
+                    f.vars.push(VarDecl { name: "h".into(), dom: Dom::Range(1, 2), alias: None, fixed: None, output: true });
+                    f.cons.push(ConDecl { name: "int_ne", args: vec![v("g"), v("h")] });
+                }
+                19 => {
+                    // an alias class of three built as a chain, with variables declared after it
+                    f.vars.push(VarDecl { name: "w".into(), dom: Dom::Range(0, 2), alias: Some("x".into()), fixed: None, output: true });
+                    f.vars.push(VarDecl { name: "u".into(), dom: Dom::Range(0, 2), alias: Some("w".into()), fixed: None, output: true });
+                    f.vars.push(VarDecl { name: "g".into(), dom: Dom::Range(0, 1), alias: None, fixed: None, output: true });
+                    f.vars.push(VarDecl { name: "h".into(), dom: Dom::Range(1, 2), alias: None, fixed: None, output: true });
+                    f.cons.push(ConDecl { name: "int_le", args: vec![v("g"), v("u")] });
+                }
+                20 => {
+                    // a Boolean alias class of three and later Booleans
+                    f.vars.push(VarDecl { name: "s".into(), dom: Dom::Bool, alias: Some("p".into()), fixed: None, output: true });
+                    f.vars.push(VarDecl { name: "t".into(), dom: Dom::Bool, alias: Some("s".into()), fixed: None, output: true });
+                    f.vars.push(VarDecl { name: "k".into(), dom: Dom::Bool, alias: None, fixed: None, output: true });
+                    f.vars.push(VarDecl { name: "l".into(), dom: Dom::Bool, alias: None, fixed: None, output: true });
+                    f.cons.push(ConDecl { name: "bool_clause", args: vec![Arg::Arr(vec![v("t"), v("k")]), Arg::Arr(vec![v("l")])] });
+                }
+                21 => {
+                    // two alias classes of three, interleaved, of different domains
+                    f.vars.push(VarDecl { name: "w".into(), dom: Dom::Range(0, 2), alias: Some("x".into()), fixed: None, output: true });
+                    f.vars.push(VarDecl { name: "u".into(), dom: Dom::Range(-1, 1), alias: Some("z".into()), fixed: None, output: true });
+                    f.vars.push(VarDecl { name: "g".into(), dom: Dom::Range(0, 2), alias: Some("w".into()), fixed: None, output: true });
+                    f.vars.push(VarDecl { name: "h".into(), dom: Dom::Range(-1, 1), alias: Some("z".into()), fixed: None, output: true });
+                    f.vars.push(VarDecl { name: "k".into(), dom: Dom::Range(0, 1), alias: None, fixed: None, output: true });
+                    f.cons.push(ConDecl { name: "int_ne", args: vec![v("g"), v("h")] });
+                }
+                22 => {
+                    // an alias class of four with narrowing domains and a later alias of a later variable
+                    f.vars.push(VarDecl { name: "w".into(), dom: Dom::Range(0, 2), alias: Some("x".into()), fixed: None, output: true });
+                    f.vars.push(VarDecl { name: "u".into(), dom: Dom::Range(1, 2), alias: Some("x".into()), fixed: None, output: true });
+                    f.vars.push(VarDecl { name: "g".into(), dom: Dom::Range(0, 3), alias: Some("u".into()), fixed: None, output: true });
+                    f.vars.push(VarDecl { name: "h".into(), dom: Dom::Range(0, 1), alias: None, fixed: None, output: true });
+                    f.vars.push(VarDecl { name: "k".into(), dom: Dom::Range(0, 1), alias: Some("h".into()), fixed: None, output: true });
+                    f.vars.push(VarDecl { name: "l".into(), dom: Dom::Range(0, 1), alias: None, fixed: None, output: true });
+                    f.cons.push(ConDecl { name: "int_le", args: vec![v("k"), v("l")] });
                 }
                 _ => {
                     // several reified equalities of one variable combined in a clause
